@@ -57,7 +57,11 @@ func (vc *VC) heapOf(st *State, c *Component) string {
 	n := fmt.Sprintf("H%d_%s", st.epoch, c.Name)
 	if !vc.declared[n] {
 		vc.declareNamed(n, c.Sort)
-		vc.heapTypeInv(c, n, -1)
+		bound := ""
+		if st.epoch == 0 {
+			bound = "alloc0" // entry heap: every stored reference predates the call
+		}
+		vc.heapTypeInv(c, n, -1, bound)
 	}
 	return n
 }
@@ -65,31 +69,28 @@ func (vc *VC) heapOf(st *State, c *Component) string {
 // heapTypeInv states, for an unconstrained heap array h (entry heap, or the
 // result of a havoc), the facts the Go runtime guarantees for every stored
 // value: integer ranges, slice headers with 0 <= len <= cap, and so on.
-func (vc *VC) heapTypeInv(c *Component, h string, blk int) {
-	var T types.Type = c.T
-	if c.IsArr {
-		switch u := c.T.Underlying().(type) {
-		case *types.Slice:
-			T = u.Elem()
-		case *types.Array:
-			T = u.Elem()
-		}
-	} else if _, isMap := c.T.Underlying().(*types.Map); isMap {
+func (vc *VC) heapTypeInv(c *Component, h string, blk int, bound string) {
+	var T types.Type = c.T // cells: content type; arrays: element type
+	if _, isMap := c.T.Underlying().(*types.Map); isMap && !c.IsArr {
 		return
 	}
-	// only shallow contents (integers, strings, slice headers): invariants of
-	// struct and interface contents are asserted where the value is loaded
-	switch T.Underlying().(type) {
-	case *types.Basic, *types.Slice:
-	default:
-		return
+	// bound: the allocation frontier at the point where h is the heap; every
+	// reference stored in h was allocated before it. Cells get the full (deep)
+	// invariant; arrays of structs/interfaces only when no bound is given are
+	// skipped (their invariants are asserted where a value is loaded).
+	if bound == "" || (c.IsArr && !strings.HasPrefix(h, "H0_")) {
+		switch T.Underlying().(type) {
+		case *types.Basic, *types.Slice, *types.Pointer:
+		default:
+			return
+		}
 	}
 	vc.ctr++
 	r := fmt.Sprintf("r!%d", vc.ctr)
 	if c.IsArr {
 		k := fmt.Sprintf("k!%d", vc.ctr)
 		x := "(select (select " + h + " " + r + ") " + k + ")"
-		inv := vc.typeInv(x, T, "")
+		inv := vc.typeInv(x, T, bound)
 		if inv == "true" {
 			return
 		}
@@ -97,7 +98,7 @@ func (vc *VC) heapTypeInv(c *Component, h string, blk int) {
 		return
 	}
 	x := "(select " + h + " " + r + ")"
-	inv := vc.typeInv(x, T, "")
+	inv := vc.typeInv(x, T, bound)
 	if inv == "true" {
 		return
 	}
